@@ -72,7 +72,22 @@ func nativeMapToObject(val any) Object {
 
 	valValue := reflect.ValueOf(val)
 
+	// only strings can name the properties of an object; a map with
+	// keys of any other kind is an unsupported type
+	keyKind := valValue.Type().Key().Kind()
+	if keyKind != reflect.String && keyKind != reflect.Interface {
+		return nil
+	}
+
 	for _, key := range valValue.MapKeys() {
+		if key.Kind() == reflect.Interface {
+			key = key.Elem()
+		}
+
+		if key.Kind() != reflect.String {
+			return nil
+		}
+
 		pair := NativeToObject(valValue.MapIndex(key).Interface())
 
 		// value of unsupported type makes the whole map unsupported
